@@ -91,7 +91,7 @@ theorem authPassword_role (r : Role) (h : r.WF) (m : Nat) (hdr : TupleHeader) :
     rw [hdrop, htail]
     by_cases hs : p.length ≤ 126
     · rw [if_pos hs, readVarlena_short p rest hs]; rfl
-    · rw [if_neg hs, readVarlena_long _ p rest (Or.inl rfl) hp30]; rfl
+    · rw [if_neg hs, readVarlena_long _ p rest rfl hp30]; rfl
 
 /-- **one role version**: the fixed-offset walk of ParsePGAuthID returns the role's oid, name, super and login
 flags and its exact password verifier -/
